@@ -511,17 +511,17 @@ pub fn run(env: &Env) -> i32 {
     rep.probe("C16-print-extend-schema-directives", probe_ts("extend schema @d"));
     rep.probe("C16-print-extend-union-directives", probe_ts("extend union U @d"));
 
-    rep.campaign("server-schema-string", env.cases(6_000, 150_000), (100, 1200), server_case);
+    rep.campaign("server-schema-string", env.cases(20_000, 200_000), (100, 1200), server_case);
     {
         let base = work_dir("c16");
         let b = base.clone();
         let save = rep.shrink_iters;
         rep.shrink_iters = Some(200);
-        rep.campaign("server-schema-string-cli", env.cases(300, 5_000), (300, 2000), move |case| server_cli_case(case, &b));
+        rep.campaign("server-schema-string-cli", env.cases(1_000, 8_000), (300, 2000), move |case| server_cli_case(case, &b));
         rep.shrink_iters = save;
         let _ = std::fs::remove_dir_all(&base);
     }
-    rep.campaign("roundtrip-op", env.cases(20_000, 400_000), (0, 400), op_case);
-    rep.campaign("roundtrip-ts", env.cases(20_000, 400_000), (0, 400), ts_case);
+    rep.campaign("roundtrip-op", env.cases(80_000, 800_000), (0, 400), op_case);
+    rep.campaign("roundtrip-ts", env.cases(80_000, 800_000), (0, 400), ts_case);
     rep.finish()
 }
